@@ -373,14 +373,14 @@ def _illposed_case(case, spl, ps):
     m = rng.choice([0, 1, -1])
     try:
         ps.DiffEqSolver(2 * p, rspline, nr, nth, lNeumannIdx=[m], uNeumannIdx=[m])     # default C = 0
-    except ValueError:
+    except Exception:  # noqa: BLE001 - any exception is a refusal (the property does not prescribe its type)
         ev["illposed_refused"] = 1
         # and the well-posed variants must NOT be refused
         try:
             ps.DiffEqSolver(2 * p, rspline, nr, nth, lNeumannIdx=[m], uNeumannIdx=[m], rFactor=lambda r: 1.0)
             ps.DiffEqSolver(2 * p, rspline, nr, nth, lNeumannIdx=[m], uNeumannIdx=[m + 1])
-        except ValueError as e:
+        except Exception as e:  # noqa: BLE001
             return result(VIOL, cls=["illposed"], events=ev, key="C14:well-posed-problem-refused", what="well-posed Neumann configuration refused: %s" % e, witness={"case": case})
         return result(HELD, cls=["illposed/refused"], events=ev)
     return result(VIOL, cls=["illposed"], events=ev, key="C14:ill-posed-neumann-accepted",
-                  what="both-Neumann problem with C=0 for mode %d was accepted (no ValueError)" % m, witness={"case": case})
+                  what="both-Neumann problem with C=0 for mode %d was accepted (no exception raised)" % m, witness={"case": case})
